@@ -6,7 +6,10 @@
 From Coq Require Import NArith ZArith Bool List.
 From SV.Gen Require Import Tables.
 From SV.Str Require Import Common Quote HtmlEsc Unquote Utf8 RefUtf8 AstQuote TablesOk FinderProofs QuoteProofs
-     GoQuoteProofs RoundTrip HtmlProofs Utf8Proofs UnquoteProofs DoubleProofs Swar JitString.
+     GoQuoteProofs RoundTrip HtmlProofs Utf8Proofs UnquoteProofs DoubleProofs Swar JitString HtmlLink AstQuoteProofs DoubleStrict.
+From SV.Str Require Utf8Simd Utf8SimdProofs.
+From SV.Json Require Grammar.
+From SV.Enc Require Prims.
 Import ListNotations.
 Open Scope nat_scope.
 
@@ -156,6 +159,31 @@ Print Assumptions C20_unquote_double_canonical_partial.
 Example C20_double_hyp_sat : has 1%N c_F_DBLUNQ = true /\ has 3%N c_F_DBLUNQ = true.
 Proof. exact double_canonical_hyp_sat. Qed.
 
+(* fused = unquoting twice on a much larger class than the canonical one: the OUTER escaping is sonic's canonical
+   single escape of an ARBITRARY inner body u, the strict reference accepts u (every escape well formed, every surrogate
+   escape properly paired), and u does not end in a raw quote / tab / LF / CR (`last_ok`: the F_DBLUNQ code returns
+   ERR_EOF when nothing follows a two-byte escape).  KF-double-unquote-fusion lies exactly outside: non-canonical outer
+   escaping or lone surrogate escapes inside (necessity witnesses: DoubleStrict.strict_needed, canonical_outer_needed,
+   last_ok_needed) *)
+Theorem C20_unquote_double_strict : forall flags u o, has flags c_F_DBLUNQ = true -> last_ok u = true ->
+  ref_unquote (S (length u)) false u = Some o ->
+  unquote flags (escape_all _SingleQuoteTab u) = UOk o.
+Proof. exact unquote_double_strict. Qed.
+Print Assumptions C20_unquote_double_strict.
+
+Theorem C20_unquote_double_eq_twice_strict : forall flags rep u o, has flags c_F_DBLUNQ = true -> last_ok u = true ->
+  ref_unquote (S (length u)) false u = Some o ->
+  unquote flags (escape_all _SingleQuoteTab u) = UOk o /\ ref_unquote2 rep (escape_all _SingleQuoteTab u) = Some o.
+Proof. exact unquote_double_eq_twice_strict. Qed.
+Print Assumptions C20_unquote_double_eq_twice_strict.
+
+(* with F_UNIREP off (UseUnicodeErrors) the fused pass on canonically escaped input IS the strict reference *)
+Theorem C20_unquote_double_strict_iff : forall flags u o, has flags c_F_DBLUNQ = true -> has flags c_F_UNIREP = false ->
+  (unquote flags (escape_all _SingleQuoteTab u) = UOk o <->
+   ref_unquote (S (length u)) false u = Some o /\ last_ok u = true).
+Proof. exact unquote_double_strict_iff. Qed.
+Print Assumptions C20_unquote_double_strict_iff.
+
 (* ... but not in general: the full statement `unquote (DBL) = ref_unquote2` is false of the faithful model.
    Witnesses (replayed on the real code through sonic.Unmarshal into a `,string` field, KF-double-unquote-fusion):
    \u005cn -> bytes 5c 6e instead of a newline; \\ud83d\ude00 -> U+FFFD ude00 instead of U+FFFD U+FFFD;
@@ -174,6 +202,16 @@ Theorem C20_jit_string_tag_canonical : forall unicode_errors t,
   jit_unquote_twice unicode_errors ([92; 34]%N ++ escape_all _DoubleQuoteTab t ++ [92; 34]%N) = Some t.
 Proof. exact jit_unquote_twice_canonical. Qed.
 Print Assumptions C20_jit_string_tag_canonical.
+
+(* ---------------------------------------------------------------- ast.quoteString *)
+
+(* the literal written by the portable ast/encode.go:quoteString (with its U+2028/2029 escapes), unquoted by sonic's own
+   unquoter in single mode with or without F_UNIREP, is the input; the destination prefix is preserved *)
+Theorem C20_ast_quote_string_decodes_back : forall e s, Forall (fun b => (b < 256)%N) s ->
+  exists body, quote_string e s = e ++ [34%N] ++ body ++ [34%N] /\
+               unquote 2 body = UOk s /\ unquote 0 body = UOk s.
+Proof. exact quote_string_decodes_back. Qed.
+Print Assumptions C20_ast_quote_string_decodes_back.
 
 (* ---------------------------------------------------------------- html_escape *)
 
@@ -214,6 +252,26 @@ Example C20_htmlescape_regression :
   go_html_escape grow_exact ws_avx2 (repeat 112%N 65) 65 [] = GoOk (repeat 112%N 65).
 Proof. exact go_html_escape_regression. Qed.
 
+(* link to C04 (b-c03): C20's json.HTMLEscape reference is the HTML pass of C04's encodeFinish model; with
+   C04's html_escape_strict, escaping acts only inside the string literals of a strict RFC 8259 text and keeps it
+   strict - through native html_escape and the Go grow loop, for every capacity schedule and block width *)
+Theorem C20_html_ref_is_c04_pass : forall s, html_ref s = Prims.html_escape s.
+Proof. exact html_ref_eq_c04. Qed.
+Print Assumptions C20_html_ref_is_c04_pass.
+
+Theorem C20_go_html_escape_preserves_strict : forall (grow : nat -> nat -> nat), (forall old req, req <= grow old req) ->
+  forall ws, Forall (fun W => 0 < W) ws ->
+  forall d cap src, Grammar.strict d src ->
+  exists out, go_html_escape grow ws [] cap src = GoOk out /\ Grammar.strict d out.
+Proof. exact go_html_escape_strict. Qed.
+Print Assumptions C20_go_html_escape_preserves_strict.
+
+Example C20_strict_sat : Grammar.strict 0 [34; 60; 34]%N.
+Proof.
+  apply (Grammar.ST_str 0 [60%N]). apply Grammar.stb_char; try (intro H; discriminate H).
+  apply Grammar.stb_nil.
+Qed.
+
 (* ---------------------------------------------------------------- UTF-8 *)
 
 (* the mask tests of valid_utf8_4byte = Unicode table 3-7 (no overlongs, no surrogates, <= U+10FFFF) *)
@@ -235,6 +293,23 @@ Print Assumptions C20_validate_utf8_WF.
 Theorem C20_go_validate_spec : forall s, bytes s -> go_validate s = wf s.
 Proof. exact go_validate_spec. Qed.
 Print Assumptions C20_go_validate_spec.
+
+(* the AVX2 pre-check of validate_utf8_fast (native/utf8.h validate_utf8_avx2: the simdjson three-table lookup per
+   lane, must_be_2_3_continuation, is_incomplete, the ASCII shortcuts of check64 / check128 that leave the previous
+   vector stale, the 128/64-byte driver loops and the zero-padded remainder) returns "no error" exactly on the
+   well-formed strings; hence the AVX2 build of validate_utf8_fast returns what the scalar routine returns *)
+Theorem C20_avx2_precheck_exact : forall s, bytes s -> Utf8Simd.validate_utf8_avx2 s = wf s.
+Proof. exact Utf8SimdProofs.avx2_exact. Qed.
+Print Assumptions C20_avx2_precheck_exact.
+
+Theorem C20_avx2_precheck_sound : forall s, bytes s -> Utf8Simd.validate_utf8_avx2 s = true -> WF s.
+Proof. exact Utf8SimdProofs.avx2_sound. Qed.
+Print Assumptions C20_avx2_precheck_sound.
+
+Theorem C20_validate_utf8_fast_avx2_eq : forall s, bytes s ->
+  Utf8Simd.validate_utf8_fast_avx2 s = validate_utf8_fast s.
+Proof. exact Utf8SimdProofs.validate_utf8_fast_avx2_eq. Qed.
+Print Assumptions C20_validate_utf8_fast_avx2_eq.
 
 (* utf8.CorrectWith = byte-wise replacement, whatever the size of the position buffer (restarts) *)
 Theorem C20_correct_with_spec : forall msize dst src repl, bytes src -> 0 < msize ->
